@@ -210,6 +210,10 @@ func (fr *frame) visitInstr(instr ssa.Instruction) (ret bool) {
 	switch instr := instr.(type) {
 	case *ssa.DebugRef:
 	case *ssa.UnOp:
+		if le, ok := fr.get(instr.X).(lazyElem); ok {
+			fr.set(instr, le.t) // the load that directly follows a table lookup with a symbolic index
+			break
+		}
 		fr.set(instr, ip.unop(instr, fr.get(instr.X)))
 	case *ssa.BinOp:
 		fr.set(instr, ip.binop(instr.Op, instr.X.Type(), fr.get(instr.X), fr.get(instr.Y)))
@@ -306,6 +310,10 @@ func (fr *frame) visitInstr(instr ssa.Instruction) (ret bool) {
 		fr.set(instr, fr.get(instr.X).(Struct)[instr.Field])
 	case *ssa.IndexAddr:
 		x := fr.get(instr.X)
+		if le, ok := ip.lazyTableRead(fr, instr, x); ok {
+			fr.set(instr, le)
+			break
+		}
 		switch x := x.(type) {
 		case Slice:
 			i := ip.indexCheck(fr.get(instr.Index), instr.Index.Type(), len(x.s))
@@ -649,6 +657,90 @@ func (ip *Interp) concInt(v Value, what string) int64 {
 	}
 	x := ip.ex.Concretize(t, what)
 	return sext(x, t.w)
+}
+
+// lazyElem is the value of an IndexAddr whose only use is the load that follows it directly,
+// when the index is symbolic and every element is a constant: the load yields an if-then-else
+// term over the table's distinct values instead of one path per index value.
+type lazyElem struct{ t *Term }
+
+func (ip *Interp) lazyTableRead(fr *frame, instr *ssa.IndexAddr, x Value) (lazyElem, bool) {
+	idx, ok := fr.get(instr.Index).(*Term)
+	if !ok || idx.IsConst() {
+		return lazyElem{}, false
+	}
+	refs := instr.Referrers()
+	if refs == nil || len(*refs) != 1 {
+		return lazyElem{}, false
+	}
+	ld, ok := (*refs)[0].(*ssa.UnOp)
+	if !ok || ld.Op != token.MUL || ld.Block() != instr.Block() {
+		return lazyElem{}, false
+	}
+	for i, in := range instr.Block().Instrs {
+		if in == instr {
+			if i+1 >= len(instr.Block().Instrs) || instr.Block().Instrs[i+1] != ld {
+				return lazyElem{}, false
+			}
+		}
+	}
+	var elems []Value
+	switch x := x.(type) {
+	case Slice:
+		elems = x.s
+	case *Value:
+		if x == nil {
+			return lazyElem{}, false
+		}
+		a, ok := (*x).(Array)
+		if !ok {
+			return lazyElem{}, false
+		}
+		elems = a
+	default:
+		return lazyElem{}, false
+	}
+	if len(elems) < 2 || len(elems) > 4096 {
+		return lazyElem{}, false
+	}
+	count := map[uint64]int{}
+	var w uint8
+	for i, e := range elems {
+		t, ok := e.(*Term)
+		if !ok || !t.IsConst() || (i > 0 && t.w != w) {
+			return lazyElem{}, false
+		}
+		w = t.w
+		count[t.k]++
+	}
+	if len(count) > 64 {
+		return lazyElem{}, false
+	}
+	// bounds check as in indexCheck (a decision), without concretising the index
+	n := len(elems)
+	_, signed, _, _ := basicInfo(instr.Index.Type())
+	if !(idx.w < 63 && !signed && uint64(n) >= uint64(1)<<idx.w) {
+		inb := ip.ts.Cmp(OpUlt, idx, Const(int(idx.w), uint64(n)))
+		if idx.w < 63 && uint64(n) >= uint64(1)<<idx.w {
+			inb = ip.ts.BNot(ip.ts.Cmp(OpSlt, idx, Const(int(idx.w), 0)))
+		}
+		if !ip.ex.Branch(inb) {
+			ip.throw(fmt.Sprintf("index out of range [symbolic] with length %d", n))
+		}
+	}
+	def, best := uint64(0), -1
+	for k, c := range count {
+		if c > best || (c == best && k < def) {
+			def, best = k, c
+		}
+	}
+	res := Const(int(w), def)
+	for i := len(elems) - 1; i >= 0; i-- {
+		if k := elems[i].(*Term).k; k != def {
+			res = ip.ts.Ite(ip.ts.Eq(idx, Const(int(idx.w), uint64(i))), Const(int(w), k), res)
+		}
+	}
+	return lazyElem{res}, true
 }
 
 // indexCheck performs the bounds check (forking on failure) and concretises the index.
